@@ -83,15 +83,17 @@ Proof. destruct norecover_panic as [H _]. split; [exact H|]. unfold load_shard_s
 Print Assumptions C11_load_norecover_refuted.
 
 (** REFUTED (known finding c11:api-error:search:out-of-bounds, not repaired): isolation of the healthy shards.
-    A shard whose TOC places fileContents outside the file LOADS (offsets are not validated at load); its Search
-    returns IndexFile.Read's error, and streamSearch turns one shard's error into the failure of the whole search:
-    the healthy shard's results (non-empty when searched alone) are lost.  Both files are written by the model and
-    replayed on the implementation by the hunt (classes served-ok / api-error). *)
+    A shard whose postings index table points beyond the end of the file LOADS (offsets are not validated at load);
+    a substring search reads the posting list of one of the pattern's trigrams (iterateNgrams: Get + readSectionBlob),
+    IndexFile.Read fails, Search returns that error, and streamSearch turns one shard's error into the failure of the
+    whole search: the healthy shard's result (posting list [8] for "nee" when searched alone) is lost.  Both files are
+    written by the model and replayed on the implementation by the hunt (classes served-ok / api-error).
+    (Errors of per-document content reads do NOT propagate: contentProvider swallows them.) *)
 Theorem C11_isolation_refuted :
   exists h c, load_shard (mmap_file iso_healthy) false = Ok h /\ load_shard (mmap_file witness_oob) false = Ok c
-    /\ (exists r, sharded_search [h] = Ok (r, 0) /\ r <> [])
-    /\ shard_search c = Err E_OOB
-    /\ sharded_search [h; c] = Err E_OOB.
+    /\ sharded_search [h] iso_ngram = Ok ([[8]], 0)
+    /\ shard_ngram_search c iso_ngram = Err E_OOB
+    /\ sharded_search [h; c] iso_ngram = Err E_OOB.
 Proof. exact isolation_refuted. Qed.
 Print Assumptions C11_isolation_refuted.
 
